@@ -223,6 +223,25 @@ impl RawAutomaton {
         }
     }
 
+    /// Gives the marker `table[b]` to all the transitions of `self` labelled by
+    /// a byte `b`. Assumes that `self` has no markers (which ensures that
+    /// determinism is preserved).
+    pub(super) fn mark(self, table: &[usize; ALPHABET_MAX_SIZE]) -> Self {
+        let mut markers = FxHashSet::default();
+        let mut transitions = self.transitions;
+        for (letter, _) in transitions.iter_mut().flatten() {
+            letter.marker = table[letter.char as usize];
+            markers.insert(letter.marker);
+        }
+        Self {
+            // Completeness is relative to the markers of the automaton.
+            complete: self.complete && markers.iter().all(|&marker| marker == 0),
+            transitions,
+            markers,
+            ..self
+        }
+    }
+
     /// Creates an automaton recognising the same language as `self` + the empty
     /// word epsilon. As this operation is quite common, saving even one state
     /// in this construction can have an observable effect on the load of the
